@@ -244,6 +244,49 @@ Fixpoint zip3 {A B C D} (f : A -> B -> C -> D) (a : list A) (b : list B) (c : li
   | _, _, _ => []
   end.
 
+(* the measure-0 override (the header tempo is dropped when the FIRST parsed tempo object sits at measure 0 beat 0)
+   followed by  bcs_s.sort(key=lambda x: x.snap)  *)
+Definition override_sort (bcs_s : list bcs) : list bcs :=
+  sort_by bcs_lt (match bcs_s with
+                  | b0 :: b1 :: rest =>
+                      if (s_m (bs_snap b1) =? 0) && Qeq_bool (s_b (bs_snap b1)) 0 then b1 :: rest else bcs_s
+                  | _ => bcs_s
+                  end).
+
+(* BMSMap._read_notes, the part after the line loop: lane pairing, measure-0 override, sort, TimingMap, offsets, reseat *)
+Definition notes_of_state (tbl : list Q) (max_keys : Z) (meta : bms_meta) (st : rstate)
+  : option (list hit * list hold * list bco) :=
+  match from_bcs 0 (override_sort (rev (r_bcs st))) with
+  | None => None
+  | Some tm =>
+    match pair_lanes (m_lnobj meta) (m_samples meta) (rev (r_objs st)) (seq 0 (Z.to_nat max_keys)) with
+    | None => None                                             (* Failed to match LN Tail *)
+    | Some (hits, holds) =>
+      let hits_out :=
+        match hits with
+        | [] => Some []
+        | _ => match tm_offsets tbl tm (map hp_snap hits) with
+               | None => None
+               | Some offs => Some (map (fun p => mkHit (hp_col (fst p)) (snd p) (hp_sample (fst p))) (combine hits offs))
+               end
+        end in
+      let holds_out :=
+        match holds with
+        | [] => Some []
+        | _ => match tm_offsets tbl tm (map (fun h => hp_snap (lp_hit h)) holds),
+                     tm_offsets tbl tm (map lp_tail holds) with
+               | Some oh, Some ot =>
+                   Some (zip3 (fun h a b => mkHold (hp_col (lp_hit h)) a (Qred (b - a)) (hp_sample (lp_hit h))) holds oh ot)
+               | _, _ => None
+               end
+        end in
+      match hits_out, holds_out, tm_reseat tbl tm with
+      | Some hs, Some ls, Some bp => Some (hs, ls, bp)
+      | _, _, _ => None
+      end
+    end
+  end.
+
 (* BMSMap._read_notes *)
 Definition read_notes (tbl : list Q) (cfg : layout) (max_keys : Z) (meta : bms_meta) (data : list note_entry)
   : option (list hit * list hold * list bco) :=
@@ -252,44 +295,7 @@ Definition read_notes (tbl : list Q) (cfg : layout) (max_keys : Z) (meta : bms_m
       let bcs0 := mkBcs (m_bpm meta) 4 (mkSnap 0 0 4) in
       match read_entries cfg max_keys meta ch_ts ch_bpm ch_ex (mkRS [bcs0] [] []) data with
       | None => None
-      | Some st =>
-          let bcs_s := rev (r_bcs st) in
-          let bcs_s := match bcs_s with
-                       | b0 :: b1 :: rest =>
-                           if (s_m (bs_snap b1) =? 0) && Qeq_bool (s_b (bs_snap b1)) 0 then b1 :: rest else bcs_s
-                       | _ => bcs_s
-                       end in
-          let bcs_s := sort_by bcs_lt bcs_s in
-          match from_bcs 0 bcs_s with
-          | None => None
-          | Some tm =>
-            match pair_lanes (m_lnobj meta) (m_samples meta) (rev (r_objs st)) (seq 0 (Z.to_nat max_keys)) with
-            | None => None                                             (* Failed to match LN Tail *)
-            | Some (hits, holds) =>
-              let hits_out :=
-                match hits with
-                | [] => Some []
-                | _ => match tm_offsets tbl tm (map hp_snap hits) with
-                       | None => None
-                       | Some offs => Some (map (fun p => mkHit (hp_col (fst p)) (snd p) (hp_sample (fst p))) (combine hits offs))
-                       end
-                end in
-              let holds_out :=
-                match holds with
-                | [] => Some []
-                | _ => match tm_offsets tbl tm (map (fun h => hp_snap (lp_hit h)) holds),
-                             tm_offsets tbl tm (map lp_tail holds) with
-                       | Some oh, Some ot =>
-                           Some (zip3 (fun h a b => mkHold (hp_col (lp_hit h)) a (Qred (b - a)) (hp_sample (lp_hit h))) holds oh ot)
-                       | _, _ => None
-                       end
-                end in
-              match hits_out, holds_out, tm_reseat tbl tm with
-              | Some hs, Some ls, Some bp => Some (hs, ls, bp)
-              | _, _, _ => None
-              end
-            end
-          end
+      | Some st => notes_of_state tbl max_keys meta st
       end
   | _, _, _ => None                                                    (* config_rev[...] : KeyError *)
   end.
